@@ -88,6 +88,9 @@ type c17Case struct {
 	EqForm bool     `json:"eq_form"`          // -k=v instead of -k v for non-boolean flags
 	// ConfigPos: where "-config <file>" stands among the command-line settings (0 = first, n = after n of them)
 	ConfigPos int `json:"config_pos,omitempty"`
+	// ExtraEnv: VFLOW_* variables that name no scalar setting (the list-valued sflow-type-filter, unknown keys,
+	// near misses): they must not influence how any other setting is resolved
+	ExtraEnv map[string]string `json:"extra_env,omitempty"`
 }
 
 const c17Rule = "case = 1..8 settings from the 45-entry table (yaml key, flag name, VFLOW_* variable, kind, default; transcribed from docs/config.md and NewOptions), each given by a random non-empty subset of " +
@@ -144,6 +147,14 @@ func genC17(t *rapid.T) c17Case {
 	}
 	if rapid.IntRange(0, 3).Draw(t, "withfilter") == 0 {
 		c.Filter = rapid.SliceOfN(rapid.OneOf(rapid.Uint32Range(0, 5), rapid.Uint32()), 1, 4).Draw(t, "filter")
+	}
+	if rapid.IntRange(0, 2).Draw(t, "withextraenv") == 0 {
+		c.ExtraEnv = map[string]string{}
+		names := []string{"VFLOW_SFLOW_TYPE_FILTER", "VFLOW_SFLOW_TYPE_FILTER", "VFLOW_NO_SUCH_KEY", "VFLOW_IPFIX", "VFLOW_IPFIX_PORT_", "VFLOW_CONFIG", "VFLOW_LOGGER", "VFLOW_VERSION", "vflow_ipfix_port", "VFLOW_IPFIX-PORT"}
+		vals := []string{"1", "1,2", "[1, 2]", "true", "x", "4739", "0"}
+		for i, n := 0, rapid.IntRange(1, 3).Draw(t, "nextra"); i < n; i++ {
+			c.ExtraEnv[rapid.SampledFrom(names).Draw(t, "extraname")] = rapid.SampledFrom(vals).Draw(t, "extraval")
+		}
 	}
 	return c
 }
@@ -215,6 +226,19 @@ func runC17(c *c17Case) (v verdict, sig string, err error) {
 		default:
 			want[s.Field] = best
 		}
+	}
+	for k, val := range c.ExtraEnv {
+		if _, clash := req.Env[k]; clash || !strings.HasPrefix(strings.ToUpper(k), "VFLOW") {
+			return v, "", fmt.Errorf("bad case: extra environment variable %q", k)
+		}
+		for _, s := range c17Table {
+			if k == "VFLOW_"+strings.ToUpper(strings.ReplaceAll(s.Key, "-", "_")) {
+				return v, "", fmt.Errorf("bad case: extra environment variable %q names a setting", k)
+			}
+		}
+		req.Env[k] = val
+		v.label(true, "extra-env-variable")
+		v.label(k == "VFLOW_SFLOW_TYPE_FILTER", "env-for-list-valued-setting")
 	}
 	if len(c.Filter) > 0 {
 		var parts []string
@@ -304,6 +328,10 @@ func runC17(c *c17Case) (v verdict, sig string, err error) {
 	}
 	// the filter option is a parser: a,b,c -> [a,b,c]
 	gotF, _ := resp.Options["SFlowTypeFilter"].([]interface{})
+	if _, envFilter := c.ExtraEnv["VFLOW_SFLOW_TYPE_FILTER"]; envFilter && len(c.Filter) == 0 {
+		// the property says nothing about list-valued settings in the environment: only the command line form is checked
+		return v, "", nil
+	}
 	if len(gotF) != len(c.Filter) {
 		return v, "filter", fmt.Errorf("-sflow-type-filter %v parsed to %v", c.Filter, gotF)
 	}
